@@ -124,7 +124,10 @@ impl Property for C05 {
         "proptest histories (<=25 quick / <=45 thorough ops) over 2 ITS-deployed tokens (initial supply 1000 / 0, with / without minter), 2 registered canonical Stellar assets plus a canonical harness token that checks neither sign nor balance, 4 users, an executable probe, 3 chains: deployments, registrations, outbound transfers (amount 0, -1, 1, small, balance, balance+1, custody, custody+1; data absent / present; gas 0, -1, 1, all, all+1), approved inbound transfers (to users, to the executable with data, occasionally to the service itself or the gas service; amounts up to custody+1), trusted-chain changes, minter mints, transfers of unknown token ids. Oracle: ledger model of every balance, custody per canonical token and supply per deployed token, compared after every step (custody = token balance of the service, never negative; supply = sum of balances over the closed address pool); successful outbound = exactly sender -amount, payer -gas, gas service +gas, one contract_called whose payload equals the harness's own ABI encoding of SendToHub{chain, Transfer{id, XDR(sender), destination, amount, data}}, a gas payment event carrying keccak(payload), payer and amount, and a service event naming token, sender and amount; inbound credits exactly the amount and the service event names token, recipient and amount; every refused call leaves the ledger snapshot identical. The configuration of known finding C11 (supply>0 with minter) is excluded by construction. non-trivial = history has transfers in both directions on a canonical token, or a failing attempt between two successful transfers; distinct by Debug hash"
     }
     fn assumptions(&self) -> Vec<&'static str> {
-        vec!["with the unchecked harness token, a transfer beyond the sender's balance / the custody is the token's business, not the service's (Either, effects still tracked)"]
+        vec![
+            "with the unchecked harness token, a transfer beyond the sender's balance / the custody is the token's business, not the service's (Either, effects still tracked)",
+            "a transfer whose stated gas payment is exactly 0 is not decided by the statement (Either); if accepted, every other condition and effect is still checked",
+        ]
     }
     fn cases(&self, tier: Tier) -> u64 {
         tier.pick(2500, 40000)
@@ -398,10 +401,14 @@ impl Property for C05 {
                     };
                     let data_b: Option<Vec<u8>> = data.map(|l| seeded_bytes(step as u64, l as usize));
                     let dest_b = seeded_bytes(77 + step as u64, 20);
-                    let base_ok = registered && a > 0 && trusted[c] && g > 0 && g <= gasbal[u];
+                    // a stated gas payment of exactly 0 charges "exactly the stated payment" if it goes through:
+                    // the statement does not decide whether such a transfer is accepted (today the gas service
+                    // refuses it) - everything else about it is still checked
+                    let zero_gas = g == 0;
+                    let base_ok = registered && a > 0 && trusted[c] && ((g > 0 && g <= gasbal[u]) || zero_gas);
                     // the balance check is the token's; the unchecked harness token does not make it
-                    let undecided = ti == SLOPPY && base_ok && a > b;
-                    let expect_ok = base_ok && a <= b;
+                    let undecided = (ti == SLOPPY && base_ok && a > b) || (zero_gas && base_ok && (a <= b || ti == SLOPPY));
+                    let expect_ok = base_ok && a <= b && !zero_gas;
                     let snap0 = snapshot(env);
                     let ev0 = events_len(env);
                     let r = w.its.client.try_interchain_transfer(
@@ -462,7 +469,7 @@ impl Property for C05 {
                         );
                         let paid: Vec<_> = evs.iter().filter(|e| e.0 == w.gas.id).collect();
                         ensure_p!(
-                            paid.iter().any(|e| e.1.contains(&scv(env, BytesN::from_array(env, &keccak256(&payload))))
+                            g == 0 || paid.iter().any(|e| e.1.contains(&scv(env, BytesN::from_array(env, &keccak256(&payload))))
                                 && e.1.contains(&scv(env, w.users[u].clone()))
                                 && e.1.contains(&scv(env, Token { address: w.gas_asset.clone(), amount: g }))),
                             "step {}: no gas payment event carries keccak(payload), payer and the stated gas token/amount: {:?}",
